@@ -2,8 +2,19 @@
     and what the implementation did. *)
 From InvokeVerif Require Export Model.EnvModel Spec.C16Spec.
 
-Record case := mk { c_tree : tree; c_pfx : string; c_env : list (string * string);
+Record case := mk { c_tree : tree;            (* defaults level *)
+                    c_more : list tree;      (* further levels in precedence order (collection, overrides) *)
+                    c_pfx : string; c_env : list (string * string);
                     c_obs : result tree }.
+
+(** the configuration the environment is read against: the merge of the levels
+    (whether or not they were loaded with deferred merging) *)
+Definition merged (c : case) : result tree :=
+  match fold_left (fun acc lvl => bind acc (fun d => merge_dicts d lvl))
+                  (c_tree c :: c_more c) (Ok []) with
+  | Ok d => Ok (Node d)
+  | Err e => Err e
+  end.
 
 Definition res_equiv (a b : result tree) : bool :=
   match a, b with
@@ -13,10 +24,17 @@ Definition res_equiv (a b : result tree) : bool :=
   end.
 
 Definition model_out (c : case) : result tree :=
-  match load (c_tree c) (effective_prefix (c_pfx c)) (c_env c) with Ok d => Ok (Node d) | Err e => Err e end.
+  match merged c with
+  | Err e => Err e
+  | Ok t => match load t (effective_prefix (c_pfx c)) (c_env c) with Ok d => Ok (Node d) | Err e => Err e end
+  end.
 
 Definition corr (c : case) : bool := res_equiv (model_out c) (c_obs c).
 
 Definition spec (c : case) : bool :=
-  spec_ok (c_tree c) (effective_prefix (c_pfx c)) (c_env c)
-          (match c_obs c with Ok (Node d) => Ok d | Ok (Leaf _) => Err EOther | Err e => Err e end).
+  match merged c with
+  | Err _ => true   (* type-inconsistent levels: outside C16 (C03's guard) *)
+  | Ok t =>
+  spec_ok t (effective_prefix (c_pfx c)) (c_env c)
+          (match c_obs c with Ok (Node d) => Ok d | Ok (Leaf _) => Err EOther | Err e => Err e end)
+  end.
